@@ -57,6 +57,16 @@ def check_overload(rep, mod, cfg, name, specfn, alias=None, extents_fn=None, sam
     except (Incomplete, NoSpec) as e:
         rep.incomplete('value:' + tag, 'wrapper-value', site, str(e))
         return
+    if not harness.is_pinned(dem):
+        # an overload the pinned tree does not have: covered when its parameter list is inside the signature grammar (then it is
+        # checked like any other), mentioned and left alone otherwise - the grammar was frozen on the overloads of the pinned tree
+        try:
+            specfn(dem, params0)
+        except NoSpec as e:
+            rep.note('NOT COVERED: new overload %s (%s) has a parameter list outside the signature grammar: %s' % (dem, site, e))
+            return
+        except Exception:
+            pass
     try:
         for dec, eff, values, atom_subst in explore_paths(mod, name, summ, ctx, params0, alias=alias, extents=ext):
             ptag = tag + ('' if not dec else ' path[' + ','.join(
